@@ -10,8 +10,15 @@ ALL = ["C%02d" % i for i in range(1, 21)]
 CLAIMS = json.load(open("/verif/tools/claims.json"))
 
 NOT_APPLICABLE = {
+ "C01": "not claimed: the round trip runs through compress/flate (an encode/decode inverse of an external package) and through the writer's and reader's goroutines and channels; sequential per-function contracts reach only compressor.writeBlock, which is claimed under C08. No check for the end-to-end statement was built.",
+ "C02": "not claimed: a history property of a reader whose blocks arrive from read-ahead goroutines redirected through a channel; the planned ghost flat-stream model of the sequential path (DESIGN.md section 4 C02) was not built, and the worker path is outside sequential contracts.",
+ "C03": "not claimed as a check of its own: the cache side (Get/Put/Peek contracts, ownership hand-over) is decided under C14, including the known finding that FIFO.Get leaves a used block indexed, which is exactly the C03 failure (reader returns block 3's bytes for block 0; selftest/demos/C14_fifo_wrong_data_test.go.txt). The reader side (cacheSwap/cachePut/keep under read-ahead) was not put under contract.",
+ "C05": "not claimed: the record codec (bam.Writer.Write against bam.Reader.Read) was not put under a byte-layout contract; only the decoding side is proved total (C11). No check was built.",
  "C09": "liveness of calls blocking on other goroutines and goroutine leaks: not expressible as per-function contracts (DESIGN.md section 6)",
+ "C10": "not claimed: detection of truncation and corruption rests on CRC32/ISIZE checks inside compress/gzip (external) and on the BGZF reader's goroutines; the framing functions (readMember, expectedMemberSize, newBuffer) were not put under contract.",
  "C12": "inter-goroutine delivery order and WaitGroup durability: outside sequential per-function contracts (DESIGN.md section 6)",
+ "C13": "not claimed: ChunkReader.Read and the chunk-limited bam.Reader depend on the position bookkeeping of bgzf.Reader (C02), which is not under contract; the clamp arithmetic alone was not built into a check.",
+ "C18": "not claimed: the merge order and loss-freedom are whole-run properties over container/heap and several readers; the per-function pieces (reassignReference, comparators, nextBySortOrder error handling) were inspected (DESIGN.md section 5 lists the suspected defects) but not put under contract.",
 }
 
 PENDING = "not claimed yet: contracts for this property are not discharged on the unchanged tree at this commit (work in progress, see DESIGN.md section 7)"
